@@ -148,13 +148,57 @@ def prop_sim(case):
     return Result(list(uniq.values()), nontrivial=ran, classes=[sim])
 
 
+def prop_helpers(case):
+    """percolation-based functions of the simulation module (they take the caller's graph and rule tables)"""
+    import random
+    import EoN
+    from . import c17
+    gc = case['gc']
+    nodes, adj = oracles.adjacency(gc)
+    pairs = [(u, v) for u in nodes for v in adj[u]]
+    G = oracles.build_graph(gc)
+    for u in nodes:
+        G.nodes[u]['age'] = 3
+    G.graph['name'] = 'caller graph'
+    xi = dict(zip(nodes, case['xi'])); zeta = dict(zip(nodes, case['zeta']))
+    rule = c17.transmission_rule(case['rule'])
+    dur = {u: float('inf') if d == 'inf' else d for u, d in zip(nodes, case['dur'])}
+    delay = {p: float('inf') if d == 'inf' else d for p, d in zip(pairs, case['delay'])}
+    I0 = [nodes[0]]
+    R0 = [nodes[-1]] if len(nodes) > 2 else []
+    H = nx.DiGraph()
+    H.add_nodes_from(nodes)
+    H.add_edges_from(p for p in pairs if rule(xi[p[0]], zeta[p[1]]))
+    calls = [
+        ('get_infected_nodes', EoN.get_infected_nodes, [G, case['tau'], case['gamma']], {'initial_infecteds': I0, 'initial_recovereds': R0}),
+        ('percolate_network', EoN.percolate_network, [G, case['p']], {}),
+        ('directed_percolate_network', EoN.directed_percolate_network, [G, case['tau'], case['gamma']], {}),
+        ('estimate_SIR_prob_size', EoN.estimate_SIR_prob_size, [G, case['p']], {}),
+        ('estimate_directed_SIR_prob_size', EoN.estimate_directed_SIR_prob_size, [G, case['tau'], case['gamma']], {}),
+        ('estimate_SIR_prob_size_from_dir_perc', EoN.estimate_SIR_prob_size_from_dir_perc, [H], {}),
+        ('nonMarkov_directed_percolate_network', EoN.nonMarkov_directed_percolate_network, [G, xi, zeta, rule], {}),
+        ('estimate_nonMarkov_SIR_prob_size', EoN.estimate_nonMarkov_SIR_prob_size, [G, xi, zeta, rule], {}),
+        ('nonMarkov_directed_percolate_network_with_timing', EoN.nonMarkov_directed_percolate_network_with_timing,
+         [G, lambda u, v: delay[(u, v)], lambda u: dur[u]], {}),
+        ('estimate_nonMarkov_SIR_prob_size_with_timing', EoN.estimate_nonMarkov_SIR_prob_size_with_timing,
+         [G, lambda u, v: delay[(u, v)], lambda u: dur[u]], {}),
+    ]
+    fails = []
+    for name, f, args, kw in calls:
+        def reseed():
+            random.seed(case['seed'])
+        fl, ok = check_purity(name, f, args, kw, deterministic=False, reseed=reseed)
+        fails += fl
+    return Result(fails, nontrivial=len(pairs) >= 2, classes=['helpers'])
+
+
 def replay(ctx, sub, case):
-    return {'ode': prop_ode, 'simulators': prop_sim}[sub](case).failures
+    return {'ode': prop_ode, 'simulators': prop_sim, 'helpers': prop_helpers}[sub](case).failures
 
 
 def run(ctx):
     quick = ctx.tier == 'quick'
-    ctx.rule = ('Hypothesis: (ode) every analytic entry point (%d) with arguments built from a generated graph / hand-counted class arrays (both return '
+    ctx.rule = ('Hypothesis: (helpers) the ten percolation-based functions of the simulation module on a caller graph with node/graph attributes and rule tables; (ode) every analytic entry point (%d) with arguments built from a generated graph / hand-counted class arrays (both return '
                 'modes); (simulators) the 12 simulators with generated graphs (edge/node attributes present), initial-set lists, specification '
                 'graphs and status dicts. Deep snapshots of all argument objects before/after the first call; a second call with the same objects. '
                 'Non-trivial: the call ran and had at least one mutable argument (graph, array, list, dict).' % len(ac.ENTRIES))
@@ -166,3 +210,6 @@ def run(ctx):
         run_hypothesis(ctx, 'ode', ac.analytic_case(names=names), prop_ode, 500 if quick else 15000, rounds=8)
     if not only or 'simulators' in only:
         run_hypothesis(ctx, 'simulators', simrun.sim_case(nmax=12), prop_sim, 400 if quick else 15000, rounds=4)
+    if not only or 'helpers' in only:
+        from . import c17
+        run_hypothesis(ctx, 'helpers', c17.contact_case(), prop_helpers, 150 if quick else 5000, rounds=4)
